@@ -16,6 +16,11 @@ def canonEntry (e : Entry) : Entry := { e with resp := canonResp e.resp }
 def canonStored (e : Entry) : Entry :=
   canonEntry { e with resp := { e.resp with header := Header.del e.resp.header sConnection } }
 
+/-- the harness decodes a reference's `received_at` of Go's zero time as "none" (time.Time.IsZero): that
+    is how an absent Date is recorded; a Date that IS the zero time is the same instant -/
+def canonRef (r : Ref) : Ref :=
+  { r with receivedAt := if r.receivedAt = some zeroTimeNs then none else r.receivedAt }
+
 def showRef (r : Ref) : String :=
   s!"\{id={shw r.id} vary={shw r.vary} resolved={String.intercalate "," (r.resolved.map fun p => shw p.1 ++ "=" ++ shw p.2)} at={r.receivedAt}}"
 
@@ -90,7 +95,7 @@ def replay (h : Hist) (n : Nat) : Nat → Prog → List Ev → Outcome → Outco
         | .setRefs key refs k, .store e =>
           match e.val with
           | .idx refs' 0 =>
-            if e.op == "set" && e.key = key && refs = refs' then replay h n fuel (k (e.result == "ok")) rest o
+            if e.op == "set" && e.key = key && refs.map canonRef = refs'.map canonRef then replay h n fuel (k (e.result == "ok")) rest o
             else mism
           | _ => mism
         | .delete key k, .store e =>
